@@ -522,3 +522,99 @@ def fam_hostile(seed, kind=None, pick=None):
         outs = [x]
     net = g.finish(outs, "hostile:" + sub, "hostile", tol=None)
     return net
+
+
+# ---------------------------------------------------------------------------------------------------------- operator zoo (options-table walk)
+def _f(g, name, shape, dt="float32", data=None):
+    t = g.net.add_t(name, list(shape), dt)
+    if data is not None:
+        t.data = np.ascontiguousarray(np.asarray(data, dtype=t.dtype).reshape(shape))
+    return name
+
+
+def _zoo_entries():
+    """(builtin name, options table name, non-default option values, builder(g) -> (inputs, outputs)); float32 operands keep every instance on the CPU"""
+    E = []
+
+    def add(name, optn, opts, build, version=1):
+        E.append((name, optn, opts, build, version))
+
+    x4 = lambda g: _f(g, "x", (1, 4, 4, 8))  # noqa: E731
+    add("CONCATENATION", "ConcatenationOptions", dict(axis=2, fused_activation_function=1), lambda g: ([x4(g), _f(g, "y", (1, 4, 4, 8))], [_f(g, "o", (1, 4, 8, 8))]))
+    add("RESHAPE", "ReshapeOptions", dict(new_shape=[1, 16, 8]), lambda g: ([x4(g), _f(g, "s", (3,), "int32", [1, 16, 8])], [_f(g, "o", (1, 16, 8))]))
+    add("PAD", "PadOptions", {}, lambda g: ([x4(g), _f(g, "p", (4, 2), "int32", [0, 0, 1, 1, 2, 0, 0, 0])], [_f(g, "o", (1, 6, 6, 8))]))
+    add("PADV2", "PadV2Options", {}, lambda g: ([x4(g), _f(g, "p", (4, 2), "int32", [0, 0, 1, 1, 2, 0, 0, 0]), _f(g, "c", (1,), "float32", [0.5])], [_f(g, "o", (1, 6, 6, 8))]))
+    add("MIRROR_PAD", "MirrorPadOptions", dict(mode=1), lambda g: ([x4(g), _f(g, "p", (4, 2), "int32", [0, 0, 1, 1, 2, 0, 0, 0])], [_f(g, "o", (1, 6, 6, 8))]))
+    add("TRANSPOSE", "TransposeOptions", {}, lambda g: ([x4(g), _f(g, "p", (4,), "int32", [0, 2, 1, 3])], [_f(g, "o", (1, 4, 4, 8))]))
+    for nm in ("MEAN", "SUM", "REDUCE_MAX", "REDUCE_MIN", "REDUCE_PROD"):
+        add(nm, "ReducerOptions", dict(keep_dims=True), lambda g: ([x4(g), _f(g, "a", (2,), "int32", [1, 2])], [_f(g, "o", (1, 1, 1, 8))]))
+    add("ARG_MAX", "ArgMaxOptions", dict(output_type=4), lambda g: ([x4(g), _f(g, "a", (), "int32", 3)], [_f(g, "o", (1, 4, 4), "int64")]))
+    add("ARG_MIN", "ArgMinOptions", dict(output_type=2), lambda g: ([x4(g), _f(g, "a", (), "int32", 3)], [_f(g, "o", (1, 4, 4), "int32")]))
+    add("GATHER", "GatherOptions", dict(axis=3, batch_dims=0), lambda g: ([x4(g), _f(g, "i", (3,), "int32", [0, 5, 2])], [_f(g, "o", (1, 4, 4, 3))]))
+    add("SPLIT", "SplitOptions", dict(num_splits=2), lambda g: ([_f(g, "a", (), "int32", 3), x4(g)], [_f(g, "o", (1, 4, 4, 4)), _f(g, "o2", (1, 4, 4, 4))]), 2)
+    add("SPLIT_V", "SplitVOptions", dict(num_splits=2), lambda g: ([x4(g), _f(g, "z", (2,), "int32", [3, 5]), _f(g, "a", (), "int32", 3)], [_f(g, "o", (1, 4, 4, 3)), _f(g, "o2", (1, 4, 4, 5))]), 2)
+    add("STRIDED_SLICE", "StridedSliceOptions", dict(begin_mask=1, end_mask=2, ellipsis_mask=0, new_axis_mask=0, shrink_axis_mask=0),
+        lambda g: ([x4(g), _f(g, "b", (4,), "int32", [0, 1, 0, 0]), _f(g, "e", (4,), "int32", [1, 3, 4, 8]), _f(g, "st", (4,), "int32", [1, 1, 1, 1])], [_f(g, "o", (1, 3, 4, 8))]))
+    add("SLICE", "SliceOptions", {}, lambda g: ([x4(g), _f(g, "b", (4,), "int32", [0, 1, 0, 0]), _f(g, "z", (4,), "int32", [1, 2, 4, 8])], [_f(g, "o", (1, 2, 4, 8))]))
+    add("SQUEEZE", "SqueezeOptions", dict(squeeze_dims=[0]), lambda g: ([x4(g)], [_f(g, "o", (4, 4, 8))]))
+    add("EXPAND_DIMS", "ExpandDimsOptions", {}, lambda g: ([x4(g), _f(g, "a", (), "int32", 0)], [_f(g, "o", (1, 1, 4, 4, 8))]))
+    add("TILE", "TileOptions", {}, lambda g: ([x4(g), _f(g, "m", (4,), "int32", [1, 2, 1, 1])], [_f(g, "o", (1, 8, 4, 8))]))
+    add("PACK", "PackOptions", dict(values_count=2, axis=1), lambda g: ([x4(g), _f(g, "y", (1, 4, 4, 8))], [_f(g, "o", (1, 2, 4, 4, 8))]))
+    add("UNPACK", "UnpackOptions", dict(num=4, axis=2), lambda g: ([x4(g)], [_f(g, "o%d" % i, (1, 4, 8)) for i in range(4)]))
+    add("RESIZE_BILINEAR", "ResizeBilinearOptions", dict(align_corners=False, half_pixel_centers=True), lambda g: ([x4(g), _f(g, "z", (2,), "int32", [8, 8])], [_f(g, "o", (1, 8, 8, 8))]), 3)
+    add("RESIZE_NEAREST_NEIGHBOR", "ResizeNearestNeighborOptions", dict(align_corners=True, half_pixel_centers=False), lambda g: ([x4(g), _f(g, "z", (2,), "int32", [7, 7])], [_f(g, "o", (1, 7, 7, 8))]), 3)
+    add("SPACE_TO_DEPTH", "SpaceToDepthOptions", dict(block_size=2), lambda g: ([x4(g)], [_f(g, "o", (1, 2, 2, 32))]))
+    add("DEPTH_TO_SPACE", "DepthToSpaceOptions", dict(block_size=2), lambda g: ([x4(g)], [_f(g, "o", (1, 8, 8, 2))]))
+    for nm in ("AVERAGE_POOL_2D", "MAX_POOL_2D", "L2_POOL_2D"):
+        add(nm, "Pool2DOptions", dict(padding=1, stride_w=2, stride_h=1, filter_width=2, filter_height=3, fused_activation_function=3), lambda g: ([x4(g)], [_f(g, "o", (1, 2, 2, 8))]), 2)
+    add("CONV_2D", "Conv2DOptions", dict(padding=1, stride_w=2, stride_h=1, dilation_w_factor=1, dilation_h_factor=2, fused_activation_function=1),
+        lambda g: ([x4(g), _f(g, "w", (4, 1, 1, 8), "float32", np.ones((4, 1, 1, 8))), _f(g, "b", (4,), "float32", np.zeros(4))], [_f(g, "o", (1, 4, 2, 4))]), 3)
+    add("DEPTHWISE_CONV_2D", "DepthwiseConv2DOptions", dict(padding=0, stride_w=1, stride_h=2, depth_multiplier=1, dilation_w_factor=2, dilation_h_factor=1, fused_activation_function=3),
+        lambda g: ([x4(g), _f(g, "w", (1, 1, 1, 8), "float32", np.ones((1, 1, 1, 8))), _f(g, "b", (8,), "float32", np.zeros(8))], [_f(g, "o", (1, 2, 4, 8))]), 3)
+    add("FULLY_CONNECTED", "FullyConnectedOptions", dict(fused_activation_function=1, weights_format=0, keep_num_dims=True, asymmetric_quantize_inputs=False),
+        lambda g: ([_f(g, "x", (2, 8)), _f(g, "w", (3, 8), "float32", np.ones((3, 8))), _f(g, "b", (3,), "float32", np.zeros(3))], [_f(g, "o", (2, 3))]), 5)
+    add("TRANSPOSE_CONV", "TransposeConvOptions", dict(padding=1, stride_w=2, stride_h=2),
+        lambda g: ([_f(g, "os", (4,), "int32", [1, 8, 8, 4]), _f(g, "w", (4, 2, 2, 8), "float32", np.ones((4, 2, 2, 8))), x4(g)], [_f(g, "o", (1, 8, 8, 4))]), 1)
+    add("LOCAL_RESPONSE_NORMALIZATION", "LocalResponseNormalizationOptions", dict(radius=2, bias=0.5, alpha=0.25, beta=0.75), lambda g: ([x4(g)], [_f(g, "o", (1, 4, 4, 8))]))
+    add("ONE_HOT", "OneHotOptions", dict(axis=-1), lambda g: ([_f(g, "i", (3,), "int32"), _f(g, "d", (), "int32", 4), _f(g, "on", (), "float32", 1.0), _f(g, "off", (), "float32", 0.0)], [_f(g, "o", (3, 4))]))
+    add("CUMSUM", "CumsumOptions", dict(exclusive=True, reverse=False), lambda g: ([x4(g), _f(g, "a", (), "int32", 1)], [_f(g, "o", (1, 4, 4, 8))]))
+    add("BATCH_TO_SPACE_ND", "BatchToSpaceNDOptions", {}, lambda g: ([_f(g, "x", (4, 2, 2, 8)), _f(g, "bs", (2,), "int32", [2, 2]), _f(g, "cr", (2, 2), "int32", [0, 0, 0, 0])], [_f(g, "o", (1, 4, 4, 8))]))
+    add("SPACE_TO_BATCH_ND", "SpaceToBatchNDOptions", {}, lambda g: ([x4(g), _f(g, "bs", (2,), "int32", [2, 2]), _f(g, "pd", (2, 2), "int32", [0, 0, 0, 0])], [_f(g, "o", (4, 2, 2, 8))]))
+    add("SELECT", "SelectOptions", {}, lambda g: ([_f(g, "c", (1, 4, 4, 8), "bool"), x4(g), _f(g, "y", (1, 4, 4, 8))], [_f(g, "o", (1, 4, 4, 8))]))
+    add("SELECT_V2", "SelectV2Options", {}, lambda g: ([_f(g, "c", (1, 4, 4, 8), "bool"), x4(g), _f(g, "y", (1, 4, 4, 8))], [_f(g, "o", (1, 4, 4, 8))]))
+    add("REVERSE_V2", "ReverseV2Options", {}, lambda g: ([x4(g), _f(g, "a", (1,), "int32", [2])], [_f(g, "o", (1, 4, 4, 8))]))
+    add("TOPK_V2", "TopKV2Options", {}, lambda g: ([x4(g), _f(g, "k", (), "int32", 2)], [_f(g, "o", (1, 4, 4, 2)), _f(g, "oi", (1, 4, 4, 2), "int32")]))
+    add("GATHER_ND", "GatherNdOptions", {}, lambda g: ([x4(g), _f(g, "i", (2, 1), "int32", [0, 0])], [_f(g, "o", (2, 4, 4, 8))]))
+    add("FILL", "FillOptions", {}, lambda g: ([_f(g, "d", (2,), "int32"), _f(g, "v", (), "float32", 1.5)], [_f(g, "o", (2, 3))]))
+    add("RANGE", "RangeOptions", {}, lambda g: ([_f(g, "a", (), "float32"), _f(g, "b", (), "float32"), _f(g, "c", (), "float32")], [_f(g, "o", (4,))]))
+    add("BROADCAST_TO", "BroadcastToOptions", {}, lambda g: ([_f(g, "x", (1, 1, 4, 8)), _f(g, "s", (4,), "int32", [1, 4, 4, 8])], [_f(g, "o", (1, 4, 4, 8))]))
+    return E
+
+
+ZOO2 = None
+
+
+def fam_zoo(seed, pick):
+    """the pick-th entry of the second operator zoo as a single-operator float32 network (with a quantised ADD beside it so that an Ethos-U operator exists too)"""
+    global ZOO2
+    if ZOO2 is None:
+        ZOO2 = _zoo_entries()
+    name, optn, opts, build, version = ZOO2[int(pick) % len(ZOO2)]
+    r = rng_for("zoo", seed)
+    g = G(r, "int8")
+    ins, outs = build(g)
+    g.net.add_o(getattr(BO, name), ins, outs, optn, dict(opts), version)
+    g.net.inputs += [i for i in ins if g.net.t(i).data is None]
+    net_outs = list(outs)
+    if r.integers(0, 2):
+        a = g.input([1, 4, 4, 8])
+        net_outs.append(g.eltwise("add", a, a))
+    net = g.finish(net_outs, "hostile:zoo:" + name, "hostile", tol=None)
+    return net
+
+
+def zoo_size():
+    global ZOO2
+    if ZOO2 is None:
+        ZOO2 = _zoo_entries()
+    return len(ZOO2)
